@@ -648,11 +648,19 @@ impl Hooks for IoHooks {
                         if st.bool_stack.size() != db {
                             self.v("fifo", "INPUT.GET", "pushed a bit although the oldest message has an empty body".into(), ev);
                         }
-                    } else {
-                        let k = (idx.max(0) as usize).min(front.body.len() - 1);
-                        let want = front.body[k];
+                    } else if idx >= 0 && (idx as usize) < front.body.len() {
+                        let want = front.body[idx as usize];
                         if st.bool_stack.size() != db + 1 || st.bool_stack.get(0) != Some(&want) {
                             self.v("fifo", "INPUT.GET", format!("pushed {:?} for index {}, the oldest message {:?} has bit {} there", st.bool_stack.get(0), idx, front.header, want), ev);
+                        }
+                    } else {
+                        // an index outside the body: the statement leaves open whether nothing happens or
+                        // an in-type result is pushed (the tree clamps); if a bit is pushed it is a bit of
+                        // the oldest message, and at most one
+                        let pushed = st.bool_stack.size() as i64 - db as i64;
+                        let ok = pushed == 0 || (pushed == 1 && st.bool_stack.get(0).map(|b| front.body.contains(b)).unwrap_or(false));
+                        if !ok {
+                            self.v("fifo", "INPUT.GET", format!("index {} outside the body of the oldest message {:?}: {} bits pushed, top {:?}", idx, front.header, pushed, st.bool_stack.get(0)), ev);
                         }
                     }
                 } else if st.bool_stack.size() != db {
